@@ -140,3 +140,68 @@ def iter_order(expr, base_src, allow_slice=None):
     if isinstance(expr, ast.Subscript) and A.src(expr.value) == base_src:
         return "wrong"
     return "unknown"
+
+
+def local_roles(fn, roles, res=None, scope=None):
+    """Recover what the locals of *fn* are called, from the expressions that define them.
+
+    roles: list of (matcher, names); matcher(value_node, S) -> bool where S(node) is the
+    source of a node with the names recovered so far already substituted; names is a
+    canonical name (single target) or a tuple of canonical names / None (unpacked targets,
+    loop targets, with-items).  Returns {actual_name: canonical_name}.  Roles are tried in
+    source order of the statements; each role binds at most once.
+    """
+    mapping = {}
+    done = set()
+
+    def S(node):
+        return A.src_with(node, mapping)
+
+    stmts = []
+    for n in A.walk_local(scope if scope is not None else fn):
+        if isinstance(n, ast.Assign) and len(n.targets) == 1:
+            stmts.append((n.lineno, n.col_offset, n.targets[0], n.value))
+        elif isinstance(n, (ast.For, ast.AsyncFor)):
+            stmts.append((n.lineno, n.col_offset, n.target, n.iter))
+        elif isinstance(n, (ast.With, ast.AsyncWith)):
+            for it in n.items:
+                if it.optional_vars is not None:
+                    stmts.append((n.lineno, n.col_offset, it.optional_vars, it.context_expr))
+    stmts.sort(key=lambda x: (x[0], x[1]))
+    for _, _, target, value in stmts:
+        for k, (matcher, names) in enumerate(roles):
+            if k in done:
+                continue
+            try:
+                hit = matcher(value, S)
+            except Exception:
+                hit = False
+            if not hit:
+                continue
+            if isinstance(names, str):
+                if isinstance(target, ast.Name):
+                    mapping.setdefault(target.id, names)
+                    done.add(k)
+            else:
+                if isinstance(target, (ast.Tuple, ast.List)) and len(target.elts) == len(names):
+                    for t, nm in zip(target.elts, names):
+                        if nm and isinstance(t, ast.Name):
+                            mapping.setdefault(t.id, nm)
+                    done.add(k)
+            break
+    return mapping
+
+
+def lit_srcs(p, mapping, upto=None):
+    """p.literal_srcs() with local names substituted (see local_roles)."""
+    out = []
+    evs = p.ev if upto is None else p.ev[:upto]
+    for e in evs:
+        if e[0] != "cond":
+            continue
+        for t, pol in A.literals(e[1], e[2]):
+            s = A.src_with(t, mapping)
+            if not pol:
+                s = "not (%s)" % s if isinstance(t, (ast.BoolOp, ast.Compare, ast.IfExp)) else "not " + s
+            out.append(s)
+    return out
